@@ -136,16 +136,21 @@ def run_machine(sc):
     ns = {"_D": _D, "State": State, "StateMachine": StateMachine, "GOT": got, "SNAP": snap, "_snap_state": _snap_state}
     wh = sc.get("where", "on")
     where = {"on": "on='f'", "cond": "cond='f'", "expr": "cond='f >= 1'", "expr2": "cond='0 < f and f == 1'",
-             "after": "after='f'", "enter": ""}[wh]
+             "after": "after='f'", "enter": "", "chained": "after='nxt'"}[wh]
     late = wh in ("after", "enter")        # the callback runs after the state was assigned
+    # (chained: the callable is the `on` action of a second event that the first one names as its own `after`
+    # callback: the second event is sent with the positional values and keywords of the first)
+    chained = wh == "chained"
+    ev_, src_, tgt_ = ("nxt", "s1", "s2") if chained else ("go", "s0", "s1")
     src = ("class M(StateMachine):\n    s0 = State(initial=True)\n"
            + ("    s1 = State(enter='f')\n" if wh == "enter" else "    s1 = State()\n") +
-           f"    go = s0.to(s1, {where})\n" + render_def(sc, extra_first="self", indent="    ").replace(
+           f"    go = s0.to(s1, {where})\n" + ("    s2 = State()\n    nxt = s1.to(s2, on='f')\n" if chained else "")
+           + render_def(sc, extra_first="self", indent="    ").replace(
                "        return ", "        GOT.append(") .rstrip() + ")\n"
            "        SNAP.append(_snap_state(list(locals().values())))\n        return 1\n"
            + ("    async def before_go(self):\n        return None\n" if sc.get("async_engine") else ""))
     model = None
-    if sc.get("mshape") == "partial" and wh != "enter":
+    if sc.get("mshape") == "partial" and wh not in ("enter", "chained"):
         # the callback is a functools.partial stored as an attribute of the model (its first parameter is
         # already bound); the declared parameters are the ones the partial leaves open
         ns["functools"] = functools
@@ -159,7 +164,7 @@ def run_machine(sc):
     fc = SignatureAdapter.from_callable
     getattr(fc, "__func__", fc).clear_cache()
     exec(compile(src, "<c07m>", "exec"), ns)  # noqa: S102
-    sm = ns["M"](ns["MODEL"]) if (sc.get("mshape") == "partial" and wh != "enter") else ns["M"]()
+    sm = ns["M"](ns["MODEL"]) if (sc.get("mshape") == "partial" and wh not in ("enter", "chained")) else ns["M"]()
     kwargs = _kwargs(sc)
     try:
         sm.go(*sc["args"], **kwargs)      # (send() has its own parameter named `event`)
@@ -173,17 +178,17 @@ def run_machine(sc):
         if isinstance(v, int) or v is _D or v is None:
             return v
         i = name_no - 50
-        now = "s1" if late else "s0"
+        now = "s1" if (late or chained) else "s0"
         # (event_data.state as it was when the callback ran: the state the machine was in at that moment)
-        ok = [lambda x: isinstance(x, EventData) and x.transition.source.id == "s0" and snap[0].id == now
-              and x.source.id == "s0" and x.target.id == "s1",
+        ok = [lambda x: isinstance(x, EventData) and x.transition.source.id == src_ and snap[0].id == now
+              and x.source.id == src_ and x.target.id == tgt_,
               lambda x: x.current_state_value == sm.current_state_value and type(x).__name__ in ("M", "weakproxy", "weakcallableproxy"),
-              lambda x: str(x) == "go",
+              lambda x: str(x) == ev_,
               lambda x: x is sm.model,
-              lambda x: x.source.id == "s0" and x.target.id == "s1",
+              lambda x: x.source.id == src_ and x.target.id == tgt_,
               lambda x: x.id == now,
-              lambda x: x.id == "s0",
-              lambda x: x.id == "s1"]
+              lambda x: x.id == src_,
+              lambda x: x.id == tgt_]
         if 0 <= i < 8:
             try:
                 return 350 + i if ok[i](v) else 999
@@ -393,7 +398,7 @@ def machine_case(rng):
     rng.shuffle(kwn)
     return {"sig": sig, "args": [100 + i for i in range(rng.randint(0, 3))],
             "kw": [[x, (NONE_CODE if (x < 50 and rng.random() < 0.2) else 200 + x)] for x in kwn], "shape": "machine",
-            "where": rng.choice(["on", "on", "cond", "expr", "expr2", "after", "enter"]),
+            "where": rng.choice(["on", "on", "cond", "expr", "expr2", "after", "enter", "chained"]),
             "async_engine": rng.random() < 0.4,
             "mshape": "partial" if rng.random() < 0.25 else "method"}
 
